@@ -35,7 +35,7 @@ type Builder struct {
 //
 // numItems refers to the number of items in the index.
 //
-// valueSize is the size of each value in bytes. It must be > 0 and <= 256.
+// valueSize is the size of each value in bytes. It must be > 0 and <= 252 (maxValueSize).
 // All values must be of the same size.
 func NewBuilderSized(
 	tmpDir string,
@@ -52,8 +52,9 @@ func NewBuilderSized(
 	if valueSizeBytes == 0 {
 		return nil, fmt.Errorf("valueSizeBytes must be > 0")
 	}
-	if valueSizeBytes > 255 {
-		return nil, fmt.Errorf("valueSizeBytes must be <= 255")
+	if valueSizeBytes > maxValueSize {
+		// the entry stride (HashSize + valueSize) is stored in 8 bits
+		return nil, fmt.Errorf("valueSizeBytes must be <= %d", maxValueSize)
 	}
 	if numItems == 0 {
 		return nil, fmt.Errorf("numItems must be > 0")
